@@ -25,7 +25,8 @@ RULE = (
     "JSON-representable node/edge/network attributes incl. nested lists/dicts) through write_hif/read_hif x ID casts; hif-collection and json-collection = "
     "1-3 networks as list or dict x collection_name (20 % with one object under two names); json = Hypergraphs through write_json/read_json x nodetype/edgetype "
     "casts (5 % with colliding string casts: must be refused); edgelist / bipartite = Hypergraph or SimplicialComplex (no empty edges) x 6 delimiters x "
-    "nodetype/edgetype in {None, int, str} (x dual) x encoding in {omitted, utf-8, latin-1, cp1252} (same on both sides; 30-55 % of the label families non-ASCII) "
+    "nodetype/edgetype in {None, int, str} (x dual) x encoding in {omitted, utf-8, latin-1, cp1252} (same on both sides; 20-45 % of the label families non-ASCII; "
+    "30 % 'odd' string labels: inner blanks/tabs/no-break space under non-whitespace delimiters, the other delimiters, quotes, '%', number look-alikes, empty string) "
     "x comments in {omitted, '#', '%', '//', None} (labels containing '#' only under the last three) x create_using in {omitted, class, instance}; incidence = such "
     "a network, or a 1 x m / n x 1 / 1 x 1 one, x 5 single-character delimiters x the same encoding/comments/create_using options. EVERY case is a session on "
     "one path: write A, read, compare; in 35 % deface the returned network and read the same file again; then write a different network B (same class and label "
@@ -33,8 +34,11 @@ RULE = (
     "distinct_nontrivial = distinct (format, step, options, written structure) with at least one incidence"
 )
 ASSUMPTIONS = [
-    "labels: int or str without whitespace or any of the delimiters, without '#' unless the reader is given another comment token, every character representable in the "
-    "encoding in use; attribute names are identifiers; attribute values are what JSON represents faithfully (str, int, finite float, bool, None, lists, string-keyed "
+    "labels of the text formats: int or str; a str label never contains the delimiter in use nor the comment token in use ('#' unless the reader is given another one), "
+    "has no leading/trailing whitespace (the readers strip every line), contains no whitespace at all when the reader splits on whitespace (delimiter=None), is not the "
+    "empty string when the delimiter is a blank or a tab, does not begin or end with a character of a multi-character delimiter, and every character is representable in the "
+    "encoding in use; inside these bounds (established on the unchanged tree) inner blanks, tabs, no-break spaces, the other delimiters, quotes, '%', number look-alikes "
+    "('007', '1e3', '-0') and the empty string are driven; unicode whitespace outside latin-1 and control characters (\\r, \\x0b ...) are not; attribute names are identifiers; attribute values are what JSON represents faithfully (str, int, finite float, bool, None, lists, string-keyed "
     "dicts) and are compared type-strictly",
     "inputs failing the C01/C02/C03 structural invariant are discarded and counted (invalid-start-state)",
     "write_json/read_json are driven with Hypergraph only (the statement says undirected hypergraphs); text formats with Hypergraph and SimplicialComplex "
@@ -98,6 +102,10 @@ def floors(tier):
         "hif-collection:list": 400 * k, "hif-collection:dict": 400 * k, "json-collection:list": 300 * k, "json-collection:dict": 300 * k,
         "collection:members-read": 6000 * k, "collection:repeated-member": 350 * k, "feat:isolated-node": 3200 * k, "feat:empty-edge": 3200 * k,
         "feat:multi-edge": 5000 * k, "feat:explicit-id": 19000 * k, "feat:node-attrs": 9000 * k, "feat:edge-attrs": 12000 * k, "feat:net-attrs": 8000 * k,
+        "text:odd-labels:edgelist": 600 * k, "text:odd-labels:bipartite": 900 * k,
+        "text:inner-whitespace-in-labels:edgelist:non-blank-delimiter": 280 * k, "text:inner-whitespace-in-labels:bipartite:non-blank-delimiter": 500 * k,
+        "text:empty-string-label:edgelist": 80 * k, "text:empty-string-label:bipartite": 80 * k,
+        "text:other-delimiter-in-labels:edgelist": 400 * k, "text:other-delimiter-in-labels:bipartite": 700 * k,
         "text:non-ascii-labels": 2800 * k, "text:non-ascii-labels-in-single-byte-encoding": 1200 * k, "text:hash-in-labels": 800 * k,
         "tempdirs-removed": sum(plan(tier).values()),
     })
@@ -499,31 +507,70 @@ def _text_options(c, rng, fmt):
     return enc, cm, ekw, ckw
 
 
-def _text_pair(c, idx, rng, cm, enc, **kw):
-    """Two networks for one text file: labels never contain whitespace or a delimiter; non-ASCII labels (all of them representable in
-    latin-1 / cp1252 / utf-8) in 30 % of the cases; labels containing '#' only where the reader is told another comment token."""
+def _label_ok(d, rd, cm):
+    """Which string labels a text file written with delimiter d and read with (rd, comments=cm) can carry, as established on the unchanged
+    tree: the delimiter and the comment token must not occur in the label; the readers strip each line, so no leading/trailing whitespace; a
+    whitespace-splitting read (rd None) carries no whitespace at all; the empty label needs a non-whitespace delimiter (a leading/trailing
+    whitespace delimiter is stripped with the line); with a multi-character delimiter a label must not begin or end with one of its characters
+    ('a:' + '::' + 'b' is ambiguous)."""
+    tok = "#" if cm in ("default", "#") else cm
+
+    def ok(x):
+        s = str(x)
+        if d in s or (tok is not None and tok in s) or s != s.strip():
+            return False
+        if rd is None and (s == "" or any(ch.isspace() for ch in s)):
+            return False
+        if s == "" and d.strip() == "":
+            return False
+        if len(d) > 1 and s and (s[0] in d or s[-1] in d):
+            return False
+        return True
+
+    return ok
+
+
+def _text_pair(c, idx, rng, fmt, cm, enc, d, rd, **kw):
+    """Two networks for one text file.  Label families: 30 % 'odd' strings (inner blanks / tabs / no-break space, number look-alikes, the other
+    delimiters, quotes, '%', one-character and empty labels - filtered by _label_ok for the delimiter and comment token in use), labels containing
+    '#' where the reader is told another comment token, 20-25 % non-ASCII (all representable in latin-1 / cp1252 / utf-8), else int / str / digit strings."""
     cls = UND[idx % 2]
+    plain = [k for k in O.NODE_KINDS if k != "odd"]
     r = rng.random()
-    if cm in ("%", "//", None) and r < 0.3:
+    if r < 0.3:
+        nkind = "odd"
+    elif cm in ("%", "//", None) and r < 0.42:
         nkind = "hash"
-    elif r < 0.55:
+    elif r < 0.62:
         nkind = "latin"
     else:
-        nkind = rng.choice(O.NODE_KINDS)
-    ekind = "latin" if rng.random() < 0.25 else rng.choice(O.EID_KINDS)
-    ab = c.pair(rng, cls, empties=False, nkind=nkind, ekind=ekind, attrs=rng.random() < 0.3, **kw)
+        nkind = rng.choice(plain)
+    r = rng.random()
+    ekind = "odd" if r < 0.25 else "latin" if r < 0.45 else rng.choice([k for k in O.EID_KINDS if k != "odd"])
+    ab = c.pair(rng, cls, empties=False, nkind=nkind, ekind=ekind, attrs=rng.random() < 0.3, label_ok=_label_ok(d, rd, cm), **kw)
     if ab is None:
         return None
     for _, i in ab:
         if O.collides(i["src"].nodes) or O.collides(i["src"].edges):
             c.mon.note("discarded:labels-collide-as-text")  # e.g. the explicit ID '3' next to the automatic ID 3: outside 'labels that survive the cast'
             return None
-    if any(not str(x).isascii() for _, i in ab for x in i["src"].nodes + i["src"].edges):
+    carried = [str(x) for _, i in ab for x in (i["src"].nodes + (i["src"].edges if fmt == "bipartite" else []))]
+    if any(not x.isascii() for x in carried):
         c.mon.note("text:non-ascii-labels")
         if enc in ("latin-1", "cp1252"):
             c.mon.note("text:non-ascii-labels-in-single-byte-encoding")
-    if nkind == "hash":
+    if any("#" in x for x in carried):
         c.mon.note("text:hash-in-labels")
+    if nkind == "odd" or (ekind == "odd" and fmt == "bipartite"):
+        c.mon.note(f"text:odd-labels:{fmt}")
+    if any(ch.isspace() for x in carried for ch in x):
+        c.mon.note(f"text:inner-whitespace-in-labels:{fmt}")
+        if d.strip():
+            c.mon.note(f"text:inner-whitespace-in-labels:{fmt}:non-blank-delimiter")
+    if "" in carried:
+        c.mon.note(f"text:empty-string-label:{fmt}")
+    if any(o in x for x in carried for o in DELIMS if o != d and o != " "):
+        c.mon.note(f"text:other-delimiter-in-labels:{fmt}")
     return ab
 
 
@@ -542,15 +589,15 @@ def _into(rng, choices):
 
 def case_edgelist(c, idx, rng):
     enc, cm, ekw, ckw = _text_options(c, rng, "edgelist")
-    ab = _text_pair(c, idx, rng, cm, enc)
+    d = _delim(rng, idx)
+    rd = None if (d in (" ", "\t") and rng.random() < 0.3) else d
+    ab = _text_pair(c, idx, rng, "edgelist", cm, enc, d, rd)
     if ab is None:
         return
     a, b = ab
     cls = a[1]["cls"]
-    d = _delim(rng, idx)
     c.mon.note(f"edgelist:delim:{DNAME[d]}")
     nt, nmap = O.casts(rng, a[1]["src"].nodes + b[1]["src"].nodes, c.mon)
-    rd = None if (d in (" ", "\t") and rng.random() < 0.3) else d
     into = rng.choice((None, "Hypergraph", "Hypergraph()", cls))
     variant = f"delimiter={d!r} read-delimiter={rd!r} nodetype={_tn(nt)} create_using={into} encoding={enc!r} comments={cm!r}"
     loc = Loc(c.tmp, "edges.txt")
@@ -585,12 +632,13 @@ def case_edgelist(c, idx, rng):
 
 def case_bipartite(c, idx, rng):
     enc, cm, ekw, ckw = _text_options(c, rng, "bipartite")
-    ab = _text_pair(c, idx, rng, cm, enc)
+    d = _delim(rng, idx)
+    rd = None if (d in (" ", "\t") and rng.random() < 0.3) else d
+    ab = _text_pair(c, idx, rng, "bipartite", cm, enc, d, rd)
     if ab is None:
         return
     a, b = ab
     cls = a[1]["cls"]
-    d = _delim(rng, idx)
     c.mon.note(f"bipartite:delim:{DNAME[d]}")
     dual = rng.random() < 0.4
     if dual:
@@ -599,7 +647,6 @@ def case_bipartite(c, idx, rng):
     t1, m1 = O.casts(rng, a[1]["src"].nodes + b[1]["src"].nodes, c.mon)
     t2, m2 = O.casts(rng, a[1]["src"].edges + b[1]["src"].edges, c.mon)
     kw = {"nodetype": t2, "edgetype": t1} if dual else {"nodetype": t1, "edgetype": t2}
-    rd = None if (d in (" ", "\t") and rng.random() < 0.3) else d
     into = rng.choice((None, None, "Hypergraph", "Hypergraph()"))
     variant = f"delimiter={d!r} read-delimiter={rd!r} nodetype={_tn(kw['nodetype'])} edgetype={_tn(kw['edgetype'])} dual={dual} create_using={into} encoding={enc!r} comments={cm!r}"
     loc = Loc(c.tmp, "bip.txt")
